@@ -140,3 +140,29 @@ V('C08', 'b-frontend-rename', PFF, 'pfb_frontend', 'x_weighted = x_p[t:t + num_t
 V('C08', 'b-W-floordiv', PFF, 'pfb_frontend', 'W = int(len(x) / num_taps / num_branches)', 'W = int(len(x) / (num_branches * num_taps))', kind='benign')
 V('C08', 'b-norm-sqrt', PFF, 'PolyphaseFilterbank.channelize', '/ self.num_branches ** 0.5', '/ xp.sqrt(self.num_branches)', kind='benign')
 V('C08', 'b-dtype-other', PFF, 'pfb_frontend', 'dtype=xp.result_type(x_p, h_p)', 'dtype=(x_p[0, 0] * h_p[0, 0]).dtype', kind='benign')
+
+# ------------------------------------------------------------------ C09
+QF = 'voltage/quantization.py'
+V('C09', 'clip-upper', QF, 'quantize_real', '2 ** (num_bits - 1) - 1)', '2 ** (num_bits - 1))')
+V('C09', 'clip-lower', QF, 'quantize_real', '-2 ** (num_bits - 1)', '-2 ** (num_bits - 1) + 1')
+V('C09', 'clip-before-scale', QF, 'quantize_real', 'xp.around(factor * (x - data_mean) + target_mean)', 'xp.around(factor * (xp.clip(x, -128, 127) - data_mean) + target_mean)')
+V('C09', 'floor-not-round', QF, 'quantize_real', 'xp.around(', 'xp.floor(')
+V('C09', 'no-zero-guard', QF, 'quantize_real', 'if data_std == 0:\n        factor = 0\n    else:\n        factor = target_std / data_std', 'factor = target_std / data_std')
+V('C09', 'mean-after-scale', QF, 'quantize_real', 'factor * (x - data_mean) + target_mean', 'factor * x - data_mean + target_mean')
+V('C09', 'reset-ge', QF, 'RealQuantizer.quantize', 'if self.stats_calc_indices == self.stats_calc_period:', 'if self.stats_calc_indices >= self.stats_calc_period:')
+V('C09', 'refresh-every-call', QF, 'RealQuantizer.quantize', 'if self.stats_calc_indices == 0:', 'if True:')
+V('C09', 'counter-plus2', QF, 'RealQuantizer.quantize', 'self.stats_calc_indices += 1', 'self.stats_calc_indices += 2')
+V('C09', 'custom-replaces-mean', QF, 'RealQuantizer.quantize', 'data_mean=self.stats_cache[0]', 'data_mean=0 if custom_std is not None else self.stats_cache[0]')
+V('C09', 'real-imag-swapped', QF, 'ComplexQuantizer.quantize', 'self.quantizer_r.quantize(xp.real(voltages)', 'self.quantizer_r.quantize(xp.imag(voltages)')
+V('C09', 'custom-std-same', QF, 'ComplexQuantizer.quantize', 'custom_std=custom_stds[1]', 'custom_std=custom_stds[0]')
+V('C09', 'shared-quantizer', QF, 'ComplexQuantizer.__init__', 'self.quantizer_i = RealQuantizer(target_mean=target_mean, target_fwhm=target_fwhm, num_bits=num_bits, stats_calc_period=stats_calc_period, stats_calc_num_samples=stats_calc_num_samples)', 'self.quantizer_i = self.quantizer_r')
+V('C09', 'imag-fixed-bits', QF, 'ComplexQuantizer.__init__', 'num_bits=num_bits', 'num_bits=8', nth=1)
+V('C09', 'estimate-suffix', 'voltage/data_stream.py', 'estimate_stats', 'xp.mean(voltages[:calc_len])', 'xp.mean(voltages[-calc_len:])')
+V('C09', 'estimate-all', 'voltage/data_stream.py', 'estimate_stats', 'xp.std(voltages[:calc_len])', 'xp.std(voltages)')
+V('C09', 'reset-one', QF, 'ComplexQuantizer._reset_cache', 'self.quantizer_i._reset_cache()', 'pass')
+V('C09', 'foreign-counter', QF, 'RealQuantizer._set_target_stats', 'self.target_mean = target_mean', 'self.target_mean = target_mean\n    self.stats_calc_indices = 0')
+V('C09', 'complex-func-swap', QF, 'quantize_complex', 'q_c = q_r + q_i * 1j', 'q_c = q_i + q_r * 1j')
+V('C09', 'b-factor-ifexp', QF, 'quantize_real', 'if data_std == 0:\n        factor = 0\n    else:\n        factor = target_std / data_std', 'factor = 0 if data_std == 0 else target_std / data_std', kind='benign')
+V('C09', 'b-counter-mod', QF, 'RealQuantizer.quantize', 'self.stats_calc_indices += 1\n    if self.stats_calc_indices == self.stats_calc_period:\n        self.stats_calc_indices = 0', 'nxt = self.stats_calc_indices + 1\n    self.stats_calc_indices = 0 if nxt == self.stats_calc_period else nxt', kind='benign')
+V('C09', 'b-round-syn', QF, 'quantize_real', 'xp.around(', 'xp.round(', kind='benign')
+V('C09', 'b-estimate-min', 'voltage/data_stream.py', 'estimate_stats', 'xp.amin(xp.array([stats_calc_num_samples, len(voltages)]))', 'min(len(voltages), stats_calc_num_samples)', kind='benign')
